@@ -88,7 +88,7 @@ class Lib:
             if p.returncode != 0:
                 raise ExecCrash(p.returncode, p.stdout.decode('utf8', 'replace')[-2000:], d if self.flavour != 'plain' else None)
             resp = np.fromfile(rs, RESP)
-            msgs = open(ms, errors='replace').read().split('\n')[:-1]
+            msgs = open(ms, encoding='latin1').read().split('\n')[:-1]      # byte-exact (messages may quote single bytes >= 0x80)
             if len(resp) != len(req):
                 raise Inconclusive('executor returned %d responses for %d requests' % (len(resp), len(req)))
             if (resp['status'] & ~1).any():
